@@ -122,7 +122,9 @@ def main(argv=None):
     budget = a.budget_s if a.budget_s is not None else (100.0 if tier == 'quick' else 3600.0)
     known = load_known(prop)
     known_keys = [(c, k) for c, k, _ in known]
-    replay_dir = os.path.join(VERIF, 'replays')
+    # (VERIF_REPLAY_DIR: a private directory for a caller that runs several checks of the same
+    # property side by side, e.g. tools/run_seeded.py; replay files are named after their seed)
+    replay_dir = os.environ.get('VERIF_REPLAY_DIR') or os.path.join(VERIF, 'replays')
     violations = []          # (record) not known
     known_seen = collections.Counter()
     harness = []
